@@ -9,7 +9,17 @@ fn case(inp: &[u64]) -> Result<(), String> {
     let (len, total, dens, seed) = (inp[0] as usize, (inp[1] as usize).max(inp[0] as usize), inp[2], inp[3]);
     let mut rng = Rng(seed);
     let mut b = BitVec::new(0);
+    if dens >= 1_000_000 {
+        // boundary-directed pattern: ones (zeros when the seed is odd) at alternating gaps g - d, g + d from an unaligned start, so
+        // that the span of an inventory entry sits exactly on a class boundary of the selection structures for g a power of two
+        let g = (dens - 1_000_000).max(1) as usize; let d = ((seed >> 8) as usize) % (g / 2 + 1); let inv = seed & 1 == 1;
+        let mut next = ((seed >> 1) % 97) as usize % g.max(1); let mut k = 0usize;
+        // bits 20..24 of the seed: log2 of a cycle c (0: none), bits 24..26: every c-th gap is longer by that much (span = c * g + e)
+        let c = 1usize << ((seed >> 20) & 15); let e = if c == 1 { 0 } else { ((seed >> 24) & 3) as usize };
+        for i in 0..total { let hit = i == next; if hit { next += if k % 2 == 0 { g - d } else { g + d }; if k % c == c - 1 { next += e; } k += 1; if next <= i { next = i + 1; } } b.push(hit != inv); }
+    } else {
     for _ in 0..total { b.push(rng.below(100_000) < dens); }
+    }
     for _ in 0..total - len { b.pop(); }
     let ones: Vec<usize> = (0..len).filter(|&i| b[i]).collect();
     let zeros: Vec<usize> = (0..len).filter(|&i| !b[i]).collect();
@@ -33,15 +43,20 @@ fn case(inp: &[u64]) -> Result<(), String> {
     chk1!("SelectAdapt(3)", SelectAdapt::new(nb(), 3));
     chk1!("SelectAdapt(0)", SelectAdapt::new(nb(), 0));
     chk1!("SelectAdapt::with_inv(4,1)", SelectAdapt::with_inv(nb(), 4, 1));
+    chk1!("SelectAdapt::with_inv(12,3)", SelectAdapt::with_inv(nb(), 12, 3));
+    chk1!("SelectAdapt::with_inv(9,0)", SelectAdapt::with_inv(nb(), 9, 0));
     chk1!("SelectAdaptConst<12,3>", SelectAdaptConst::<_, _>::new(nb()));
     chk1!("SelectAdaptConst<5,2>", SelectAdaptConst::<_, _, 5, 2>::new(nb()));
     chk0!("SelectZeroAdapt(3)", SelectZeroAdapt::new(nb(), 3));
     chk0!("SelectZeroAdapt::with_inv(4,1)", SelectZeroAdapt::with_inv(nb(), 4, 1));
+    chk0!("SelectZeroAdapt::with_inv(12,2)", SelectZeroAdapt::with_inv(nb(), 12, 2));
     chk0!("SelectZeroAdaptConst<12,3>", SelectZeroAdaptConst::<_, _>::new(nb()));
     chk0!("SelectZeroAdaptConst<5,2>", SelectZeroAdaptConst::<_, _, 5, 2>::new(nb()));
     chk1!("Select9", Select9::new(Rank9::new(b.clone())));
     chk1!("SelectSmall<2,9>", SelectSmall::<2, 9, _>::new(RankSmall::<2, 9, _>::new(b.clone())));
     chk1!("SelectSmall<1,11>", SelectSmall::<1, 11, _>::new(RankSmall::<1, 11, _>::new(b.clone())));
+    chk1!("SelectSmall<1,9>", SelectSmall::<1, 9, _>::new(RankSmall::<1, 9, _>::new(b.clone())));
+    chk1!("SelectSmall<1,10>", SelectSmall::<1, 10, _>::new(RankSmall::<1, 10, _>::new(b.clone())));
     chk1!("SelectSmall<3,13>", SelectSmall::<3, 13, _>::new(RankSmall::<3, 13, _>::new(b.clone())));
     chk0!("SelectZeroSmall<2,9>", SelectZeroSmall::<2, 9, _>::new(RankSmall::<2, 9, _>::new(b.clone())));
     chk0!("SelectZeroSmall<1,10>", SelectZeroSmall::<1, 10, _>::new(RankSmall::<1, 10, _>::new(b.clone())));
@@ -61,7 +76,6 @@ fn case(inp: &[u64]) -> Result<(), String> {
     chk0!("SelectZeroAdaptConst<5,1>.map(id)", unsafe { SelectZeroAdaptConst::<_, _, 5, 1>::new(nb()).map(|x| x) });
     chk1!("SelectAdapt(2).map(id)", unsafe { SelectAdapt::new(nb(), 2).map(|x| x) });
     chk0!("SelectZeroAdapt(2).map(id)", unsafe { SelectZeroAdapt::new(nb(), 2).map(|x| x) });
-    chk1!("SelectSmall<2,9>.map(id)", unsafe { SelectSmall::<2, 9, _>::new(RankSmall::<2, 9, _>::new(b.clone())).map(|x| x) });
     // nesting: ones over zeros over rank
     { let s = SelectAdapt::new(SelectZeroAdapt::new(nb(), 3), 3);
       for r in probe(&ones) { if s.select(r) != Some(ones[r]) { return Err(format!("nested: select({})", r)); } }
@@ -116,6 +130,20 @@ pub fn run(case_name: &str, ctx: &mut Ctx, one: Option<&str>, rng: &mut Rng, bud
     for len in [0u64, 1, 63, 64, 65, 127, 128, 129, 1000, 8192, 20000, 70000, 1 << 20, (1 << 21) + 77] { for dens in [0u64, 100_000, 50_000, 500, 2000, 12_500, 99_500, 30, 3] { for extra in [0u64, 700] {
         let v = vec![len, len + extra, dens, 3 + len + dens]; let s = fmt_list(&v); ctx.trial(&s, false, || case(&v));
     } } }
+    // class boundaries: Select9 (512 ones per entry: spans 2, 16, 128, 256, 512 groups of 256 bits), SelectAdapt* (spans 2^16 / 2^16 + 1 bits)
+    for g in [1u64, 2, 4, 8, 16, 32, 64, 127, 128, 129, 256, 512, 1024] { for seed in [0u64, 1, 2 + (5 << 8), 3 + (9 << 8), 40 + (28 << 8), 41 + (1 << 8)] {
+        let len = (g * 1300 + 77).min(700_000);
+        let v = vec![len, len + (seed % 3) * 300, 1_000_000 + g, seed]; let s = fmt_list(&v); ctx.trial(&s, false, || case(&v));
+    } }
+    for (g, lc) in [(4096u64, 4u64), (2048, 5), (128, 9), (16, 12), (65536, 4), (8192, 3)] { for e in [0u64, 1, 2] { for par in [0u64, 1] {
+        let len = (g << lc) * 4 + 1000;
+        let v = vec![len, len, 1_000_000 + g, par + (lc << 20) + (e << 24)]; let s = fmt_list(&v); ctx.trial(&s, false, || case(&v));
+    } } }
+    for _ in 0..budget / 4 {
+        let g = [1u64, 2, 8, 16, 64, 128, 256, 512][rng.below(8) as usize] * [1, 1, 1, 2, 4][rng.below(5) as usize];
+        let len = (g * (600 + rng.below(1500))).min(900_000);
+        let v = vec![len, len + rng.below(3) * rng.below(2000), 1_000_000 + g, rng.next()]; let s = fmt_list(&v); ctx.trial(&s, false, || case(&v));
+    }
     for _ in 0..budget {
         let len = match rng.below(6) { 0 => rng.below(300), 1 => rng.below(5000), 2 => rng.below(40000), 3 => 128 * rng.below(300), 4 => 512 * 64 * rng.below(8) + rng.below(3) * rng.below(600), _ => rng.below(400_000) };
         let v = vec![len, len + rng.below(3) * rng.below(2000), [0, 1, 3, 30, 100, 500, 2000, 6000, 12_500, 50_000, 90_000, 99_900, 99_999, 100_000][rng.below(14) as usize], rng.next()];
